@@ -42,6 +42,7 @@ def run_check(prop, tier):
 def main():
     args = sys.argv[1:]
     only = None
+    sdir = "seeded"
     tier = "quick"
     also = []
     i = 0
@@ -49,6 +50,8 @@ def main():
         if args[i] == "--only":
             only = args[i + 1]
             i += 1
+        elif args[i] == "--reverts":
+            sdir = os.path.join("selftest", "reverts")
         elif args[i] == "--tier":
             tier = args[i + 1]
             i += 1
@@ -57,15 +60,16 @@ def main():
             i += 1
         i += 1
     clean()
-    out_path = os.path.join(VERIF, "selftest", "seeded_results.json")
+    out_path = os.path.join(VERIF, "selftest", "seeded_results.json" if sdir == "seeded"
+                            else "reverts_results.json")
     try:
         results = json.load(open(out_path))
     except (OSError, ValueError):
         results = {}
-    for d in sorted(os.listdir(os.path.join(VERIF, "seeded"))):
+    for d in sorted(os.listdir(os.path.join(VERIF, sdir))):
         if only and not d.startswith(only):
             continue
-        patch = os.path.join(VERIF, "seeded", d, "patch.diff")
+        patch = os.path.join(VERIF, sdir, d, "patch.diff")
         if not os.path.exists(patch):
             continue
         prop = d.split("-")[0]
